@@ -9,6 +9,7 @@ All statements quantify over every hash `H`, every chunking function, every stor
 stream — no size bounds.
 -/
 import Rustic.Lemmas.ArchiveParent
+import Rustic.Lemmas.ArchiveComplete
 namespace Rustic.Props.C11
 open Rustic.Tree Rustic.Parent Rustic.Archive
 
@@ -151,6 +152,22 @@ theorem root_saved_or_indexed {γ} (H : List Node → Id) (chunk : γ → List I
     · injection ha with ha; subst ha
       exact tree_saved_or_indexed H hasTree _ _
 
+/-- (6'') **The new snapshot is complete, whatever happened to the parents.**  For items as a source
+produces them and any parent forest and index (e.g. parents whose blobs were partly removed from the
+index): when the backup completes, the root tree and every tree it handed to the tree packer reference only
+trees and data blobs that the index has or that this very run handed to the packers — reused content is
+indexed, re-read content is uploaded unless indexed, unchanged sub-trees are saved unless indexed.  (With
+C07 `uploaded_exactly_added`: all of them are in a pack and indexed at `finalize`.) -/
+theorem new_snapshot_references_only_stored_blobs {γ} (H : List Node → Id) (chunk : γ → List Id)
+    (len : γ → Nat) (load : Id → Option (List Node)) (hasData hasTree : Id → Bool) (o : Opts)
+    (roots : List Id) (items : List (Item γ)) (hsrc : SrcItems items) (a : ArchOut)
+    (ha : archive H chunk len load hasData hasTree o roots items = some a) :
+    (hasTree a.root = true ∨ a.root ∈ a.treeAdds.map (·.1)) ∧
+    ∀ t ∈ a.treeAdds, ∀ n ∈ t.2,
+      (∀ st, n.subtree = some st → hasTree st = true ∨ st ∈ a.treeAdds.map (·.1)) ∧
+      (∀ c ∈ n.content.getD [], hasData c = true ∨ c ∈ a.dataAdds) :=
+  archive_complete H chunk len load hasData hasTree o roots items hsrc a ha
+
 /-! ### Non-vacuity: a concrete parent forest, source walk and index satisfying every hypothesis, with a
 reused file, a re-read file (blob 7 missing from the index), a changed file and a sub-directory. -/
 
@@ -179,6 +196,11 @@ private theorem wSorted : SortedStore wLoad := by
   · injection h with h; subst h; simp [Sorted, nameLt, cmpName, fA, fB, dD]
   · injection h with h; subst h; simp [Sorted, fC]
   · cases h
+
+example : SrcItems wItems := by
+  intro it hit
+  simp [wItems, src] at hit
+  rcases hit with rfl | rfl | rfl | rfl | rfl <;> simp
 
 example : queriesOK [none] wItems := by
   simp [wItems, queriesOK, okAfter, nameLe, cmpName, src, fA, fB, fC, dD]
